@@ -130,6 +130,25 @@ def checkGen (c : Case) : CaseResult := Id.run do
     | some (.undefinedBehaviour ..) => stats := bumpStats stats "gen.err.UB" 1
     | none => pure ()
   stats := bumpStats stats "gen.constraints" ncons
+  -- makeFeasible's second encoding: getCurrSubConstraintAlternatives
+  if (c.get1 "altdone").isSome then
+    let gx := generate .x ccs (nodeVars .x rects) []
+    let gy := generate .y ccs (nodeVars .y rects) gx.aux
+    let mut nalt := 0
+    for idx in [0:ccs.length] do
+      let model := alternativesOf gx gy idx ccs[idx]!
+      let impl := ((c.get "alt").filter fun l => l[0]! == toString idx).toList
+      if !((c.get "altexc").filter fun l => l[0]! == toString idx).isEmpty then
+        return { verdict := .diverge s!"alternatives of cc{idx}: implementation threw, model yields {model.length}", stats := stats }
+      if impl.length != model.length then
+        return { verdict := .diverge s!"alternatives of cc{idx} ({ccKind ccs[idx]!}): impl {impl.length}, model {model.length}", stats := stats }
+      for (l, m) in impl.zip model do
+        let ok := nat! l[1]! == m.1.toNat' && nat! l[2]! == m.2.left && nat! l[3]! == m.2.right
+                  && num? l[4]! == some m.2.gap && (l[5]! == "1") == m.2.eq
+        if !ok then
+          return { verdict := .diverge s!"alternatives of cc{idx} ({ccKind ccs[idx]!}): impl {l} model dim {m.1.toNat'} ({m.2.left},{m.2.right},{ratToString m.2.gap},{m.2.eq})", stats := stats }
+      nalt := nalt + model.length
+    stats := bumpStats stats "gen.alternatives" nalt
   return { verdict := .ok, nontrivial := ncons > 0, stats := stats }
 
 /-- centres of the final rectangles, per dimension -/
